@@ -393,6 +393,9 @@ func c03Unmarshal(kind string, data []byte) (rtmp.Packet, string) {
 
 const c03Cut = 1200
 
+// c03Reused: one long-lived packet value per kind
+var c03Reused = map[string]rtmp.Packet{}
+
 // c03Codec runs every codec check for one packet.
 func c03Codec(c *h.Ctx, bucket string, p rtmp.Packet) {
 	kind := c03Kind(p)
@@ -420,6 +423,30 @@ func c03Codec(c *h.Ctx, bucket string, p rtmp.Packet) {
 	q, line := c03Unmarshal(kind, out)
 	c.Eq("dec", din, h.Trunc(line, 3000), h.Trunc(c.O.Call("rtmp.pkt.dec", kind, hx), 3000))
 	c.Hold(line != "panic", "decode_never_panics", din, line, "ok|err")
+	// a REUSED packet value: one long-lived packet per kind is decoded into again and again (F29: a connect decoded into
+	// a used ConnectAppPacket panicked); the result equals a fresh decode
+	if q != nil {
+		re := c03Reused[kind]
+		if re == nil {
+			re = c03New(kind)
+			c03Reused[kind] = re
+		}
+		// compared on what a packet IS for the wire — its marshalled bytes and Size() — not on fields the decoded form does
+		// not carry (the extra event data of a user control event without one)
+		rline := h.Safe(func() string {
+			if err := re.UnmarshalBinary(append([]byte(nil), out...)); err != nil {
+				return "err"
+			}
+			b, cl := c03Marshal(re)
+			return fmt.Sprintf("ok size %d %s %s", re.Size(), cl, h.Hex(b))
+		})
+		qb, qcl := c03Marshal(q)
+		fresh := fmt.Sprintf("ok size %d %s %s", q.Size(), qcl, h.Hex(qb))
+		c.Hold(rline == fresh, "unmarshal_marshal.reused_packet_equals_fresh", din+" into a packet value that earlier decodes had filled", h.Trunc(rline, 600), h.Trunc(fresh, 600))
+		if !strings.HasPrefix(rline, "ok ") {
+			delete(c03Reused, kind)
+		}
+	}
 	if wf {
 		// property: unmarshalling yields equal field values, the same Size(), and re-marshals identically
 		if c.Hold(q != nil && line == "ok "+t, "unmarshal_marshal", in, h.Trunc(line, 1500), h.Trunc("ok "+t, 1500)) {
